@@ -341,6 +341,10 @@ func pureExpr(e ast.Expr) bool {
 		return pureExpr(e.X)
 	case *ast.StarExpr:
 		return pureExpr(e.X)
+	case *ast.IndexExpr:
+		return pureExpr(e.X) && pureExpr(e.Index)
+	case *ast.BasicLit:
+		return true
 	}
 	return false
 }
